@@ -254,6 +254,12 @@ func (pass AddFields) AsCompilerPass() (*compiler.AddFields, error) {
 		return nil, err
 	}
 
+	for _, field := range pass.Fields {
+		if err := field.Type.Validate(); err != nil {
+			return nil, fmt.Errorf("add_fields: field '%s': %w", field.Name, err)
+		}
+	}
+
 	return &compiler.AddFields{
 		Object: objectRef,
 		Fields: pass.Fields,
@@ -287,6 +293,10 @@ func (pass RetypeObject) AsCompilerPass() (*compiler.RetypeObject, error) {
 	objectRef, err := compiler.ObjectReferenceFromString(pass.Object)
 	if err != nil {
 		return nil, err
+	}
+
+	if err := pass.As.Validate(); err != nil {
+		return nil, fmt.Errorf("retype_object: %w", err)
 	}
 
 	return &compiler.RetypeObject{
@@ -349,6 +359,10 @@ func (pass AddObject) AsCompilerPass() (*compiler.AddObject, error) {
 		return nil, err
 	}
 
+	if err := pass.As.Validate(); err != nil {
+		return nil, fmt.Errorf("add_object: %w", err)
+	}
+
 	return &compiler.AddObject{
 		Object:   objectRef,
 		As:       pass.As,
@@ -383,6 +397,10 @@ func (pass RetypeField) AsCompilerPass() (*compiler.RetypeField, error) {
 	fieldRef, err := compiler.FieldReferenceFromString(pass.Field)
 	if err != nil {
 		return nil, err
+	}
+
+	if err := pass.As.Validate(); err != nil {
+		return nil, fmt.Errorf("retype_field: %w", err)
 	}
 
 	return &compiler.RetypeField{
